@@ -28,7 +28,8 @@ RULE = ("1-4 destinations (one always-healthy reference at a random position, th
         "destinations (some failing) are added and a second program runs: the same accounting over re-delivered and later messages. "
         "part 'threads': 2-3 threads log while 1-2 destinations fail, under the line-granular scheduler (LINE events on "
         "eliot/_output.py), all one-preemption schedules per priority order + sampled deeper ones: every destination is offered the "
-        "same set of messages once, per-thread order kept, every failed delivery reported exactly once. non-trivial = >=2 faulty destinations or a mask that hits a report; distinct by (program shape, masks)")
+        "same set of messages once, per-thread order kept, every failed delivery reported exactly once. A quarter of the random programs run inside an action bound to a logger object of its "
+        "own, half of the hand-overs happen inside an open action. non-trivial = >=2 faulty destinations or a mask that hits a report; distinct by (program shape, masks)")
 ASSUMPTIONS = ["destinations raise Exception subclasses", "under concurrency only per-destination sets, per-thread order and report counts are judged "
                "(destinations may legitimately see different total orders)"]
 EXHAUSTIVE_NOTE = "part 'enum' enumerates every failure mask over the first K calls of D destinations"
